@@ -29,8 +29,8 @@ Un1   == {"abs", "neg", "sqrt", "exp", "ln", "not", "rise", "fall",
           "prev", "sprev", "next", "snext", "once", "hist", "ev", "alw",
           "onceT", "histT", "evT", "alwT"}
 Bin2  == {"add", "sub", "mul", "div", "pow", "log", "pred", "and", "or", "implies",
-          "iff", "xor", "since", "until", "sinceT", "untilT", "precT"}
-Timed == {"onceT", "histT", "evT", "alwT", "sinceT", "untilT", "precT"}
+          "iff", "xor", "since", "until", "sinceT", "untilT", "precT", "unlessT"}
+Timed == {"onceT", "histT", "evT", "alwT", "sinceT", "untilT", "precT", "unlessT"}
 FutOps == {"next", "snext", "ev", "alw", "until", "evT", "alwT", "untilT"}
 UnbFut == {"ev", "alw", "until"}
 PastOps == {"prev", "sprev", "once", "hist", "since", "onceT", "histT", "sinceT", "precT", "rise", "fall"}
@@ -53,6 +53,18 @@ SubF(p) == {p} \cup (IF p.op \in {"var", "const"} THEN {}
 HasOp(p, ops) == \E q \in SubF(p) : q.op \in ops
 HasFuture(p) == HasOp(p, FutOps)
 HasUnbFuture(p) == HasOp(p, UnbFut)
+
+\* documented sugar (README / property C15):  l unless[a,b] r  ==  always[0,b] l  or  l until[a,b] r.
+\* unlessT exists only in ASTs as written; every semantic operator works on Desugar(p).
+RECURSIVE Desugar(_)
+Desugar(p) ==
+  IF p.op \in {"var", "const"} THEN p
+  ELSE IF p.op = "unlessT" THEN
+       LET l == Desugar(p.l) r == Desugar(p.r) IN
+       [op |-> "or", l |-> [op |-> "alwT", l |-> l, a |-> 0, b |-> p.b],
+                     r |-> [op |-> "untilT", l |-> l, r |-> r, a |-> p.a, b |-> p.b]]
+  ELSE IF p.op \in Un1 THEN [p EXCEPT !.l = Desugar(p.l)]
+  ELSE [p EXCEPT !.l = Desugar(p.l), !.r = Desugar(p.r)]
 
 \* the horizon of property C03/C16: largest total of upper bounds (next = 1) along nested future operators
 RECURSIVE Hor(_)
